@@ -468,3 +468,41 @@ Arguments a_total {P C}.
 Arguments a_context {P C}.
 Arguments a_citations {P C}.
 Arguments a_fragments {P C}.
+
+(* ------------------------------------------------------------------------------------
+   Composition.  A later stage `post` (RRF fusion, re-ranking, correction / temporal
+   promotion, diversification, adaptive cut-off, sampling) "only draws from the lists it
+   is given" when every hit it returns has the frame of a hit of one of those lists.
+   ------------------------------------------------------------------------------------ *)
+Definition draws_from {P} (post : list (list (hit P)) -> list (hit P)) : Prop :=
+  forall ls h, In h (post ls) -> exists l h', In l ls /\ In h' l /\ h_frame h' = h_frame h.
+
+Section AskPipeline.
+  Variable json_str : str -> option str.
+  Variable json_arr : str -> option (list str).
+  Variable P : Type.
+  Variable frame_meta : N -> option meta.
+  Variable C : Type.
+  Variable build_context : list (hit P) -> C.
+
+  (* Memvid::ask with its candidate lists spelled out: `filtered` = the lists that came out
+     of search / vec_search_with_embedding_acl / search_adaptive_acl under the same context,
+     `unfiltered` = lists sampled straight from the timeline (zero-hit fallback, analytical
+     questions: build_timeline_fallback_response), `fuse` = everything between (RRF,
+     re-ranking, promotions), and then -- as the LAST step -- the ACL pass of ask_acl. *)
+  Definition ask_pipeline (fuse : list (list (hit P)) -> list (hit P))
+             (filtered unfiltered : list (list (hit P))) (total : N) (context_only : bool)
+             (context : option acl_context) (mode : acl_mode) : outcome (ask_response P C) :=
+    ask_acl json_str json_arr P frame_meta C build_context
+            (Ok (fuse (filtered ++ unfiltered), total)) context_only context mode.
+
+  (* the variant WITHOUT the final pass (what the seeded change C12-1 makes of the analytical
+     path): the fused list goes out as it is *)
+  Definition ask_pipeline_no_final_pass (fuse : list (list (hit P)) -> list (hit P))
+             (filtered unfiltered : list (list (hit P))) (total : N) (context_only : bool)
+    : outcome (ask_response P C) :=
+    let hits := fuse (filtered ++ unfiltered) in
+    Ok (mkAsk P C hits total (build_context hits)
+              (if context_only then [] else citations_from P 0 hits)
+              (map (fun h => (h_rank h, h_frame h)) hits)).
+End AskPipeline.
